@@ -48,7 +48,7 @@ def replay(ctx, rep):
     case = rep['case']
     if case.get('scenario'):
         return common.scenario_replay(ctx, rep, {'asym': asym_scenarios, 'hierarchy': hierarchy_scenarios,
-                                                 'retype': retype_scenarios})
+                                                 'retype': retype_scenarios, 'generic': generic_retype_scenarios})
     r = krun.Run(case, ['C03']).run()
     for s in r.steps:
         print(s['op'], '->', s['outcome'])
@@ -359,12 +359,18 @@ def hierarchy_scenarios(ctx, out):
                     todo += supers[c]
             return closure
 
-        def store(ti, ki, many, path, h, v):
+        def store(ti, ki, many, path, h, v, as_proxy=False):
             nonlocal cnt, failed
             ok = ti in closure_of(ki)
+            real = v
+            if as_proxy:
+                # the value offered is a RESOLVED proxy of the instance (what a followed cross-resource reference is):
+                # it conforms exactly when its target does
+                v = E.EProxy(wrapped=v)
             # (values stored before an edit may no longer conform: whole-collection assignment replaces them)
             raised = _store(E, h, f'{"m" if many else "r"}{ti}', many, path, v, keep=False)
-            hist.append(['store', holders.index(h), f'{"m" if many else "r"}{ti}', path, ki, inst[ki].index(v), raised])
+            hist.append(['store', holders.index(h), f'{"m" if many else "r"}{ti}', path, ki, inst[ki].index(real), raised] +
+                        (['through-resolved-proxy'] if as_proxy else []))
             cnt += 1
             case = {'scenario': 'hierarchy', 'seed': ctx.seed, 'tier': ctx.tier, 'history': [list(x) for x in hist]}
             sig = {'property': 'C03', 'clause': None, 'many': many}
@@ -416,7 +422,8 @@ def hierarchy_scenarios(ctx, out):
             for ti in range(NK):
                 for ki in range(NK):
                     many = rng.random() < 0.5
-                    store(ti, ki, many, rng.choice(MANY_PATHS if many else ONE_PATHS), rng.choice(holders), rng.choice(inst[ki]))
+                    store(ti, ki, many, rng.choice(MANY_PATHS if many else ONE_PATHS), rng.choice(holders), rng.choice(inst[ki]),
+                          as_proxy=rng.random() < 0.25)
                     if failed:
                         break
                 if failed:
@@ -434,3 +441,94 @@ def run(ctx, out):   # noqa: F811
     _run2(ctx, out)
     asym_scenarios(ctx, out)
     hierarchy_scenarios(ctx, out)
+
+
+def generic_retype_scenarios(ctx, out):
+    """features re-typed through generic types at run time: `f.eType = None; f.eGenericType = EGenericType(eClassifier=K)`
+    or a type parameter bounded by K, back to a plain eType, and from one generic type to another; candidates conform
+    exactly when they conform to the CURRENT declared type, on used and fresh slots, old and new instances."""
+    from harness import common
+    common.use_repo()
+    from pyecore import ecore as E
+    rng = common.rng_for(ctx.seed, 'C03:generic')
+    n = 40 if ctx.tier != 'thorough' else 600
+    NK = 4
+    cnt = 0
+    for it in range(n):
+        K = [E.EClass(f'K{i}') for i in range(NK)]
+        K[1].eSuperTypes.append(K[0])                 # K1 < K0 ; K2, K3 unrelated
+        Holder = E.EClass('Holder')
+        T = E.ETypeParameter('T')
+        Holder.eTypeParameters.append(T)
+        many = rng.random() < 0.5
+        f = E.EReference('r', K[0], upper=-1 if many else 1)
+        Holder.eStructuralFeatures.append(f)
+        cur = 0                                       # index of the class the feature currently accepts
+        inst = {i: [K[i]()] for i in range(NK)}
+        used, hist = Holder(), []
+        conf = lambda ki, ti: ki == ti or (ki == 1 and ti == 0)   # noqa
+        failed = False
+        for step in range(rng.randrange(2, 7)):
+            # store a few values first (the slot's caches get filled), then re-type
+            for _ in range(rng.randrange(0, 3)):
+                ki = rng.randrange(NK)
+                h = used if rng.random() < 0.6 else Holder()
+                v = rng.choice(inst[ki])
+                path = rng.choice(MANY_PATHS if many else ONE_PATHS)
+                raised = _store(E, h, 'r', many, path, v, keep=False)
+                cnt += 1
+                hist.append(['store', 'used' if h is used else 'fresh', path, ki, raised])
+                ok = conf(ki, cur)
+                case = {'scenario': 'generic', 'seed': ctx.seed, 'tier': ctx.tier, 'many': many, 'history': [list(x) for x in hist]}
+                sig = {'property': 'C03', 'clause': None, 'many': many}
+                if ok and raised is not None:
+                    sig['clause'] = 'conforming-refused-after-generic-retype'
+                    out.fail(sig, f'K{ki} conforms to the current type K{cur} but the store gave {raised}', case)
+                    failed = True
+                if not ok and raised != 'BadValueError':
+                    sig['clause'] = 'nonconforming-accepted-after-generic-retype'
+                    out.fail(sig, f'K{ki} does not conform to the current type K{cur} but the store gave {raised}', case)
+                    failed = True
+                if failed:
+                    break
+            if failed:
+                break
+            new = rng.randrange(NK)
+            # (setting eGenericType while eType is still set leaves eType the declared type in pyecore: the generic forms
+            #  first unset eType, as the seed of this scenario and EMF's own loader do)
+            how = rng.choice(['plain', 'generic-classifier-via-none', 'generic-classifier-via-none', 'type-parameter'])
+            try:
+                if how == 'plain':
+                    f.eGenericType = None
+                    f.eType = K[new]
+                elif how == 'generic-classifier':
+                    f.eGenericType = E.EGenericType(eClassifier=K[new])
+                elif how == 'generic-classifier-via-none':
+                    f.eType = None
+                    f.eGenericType = E.EGenericType(eClassifier=K[new])
+                else:
+                    T.eBounds.clear()
+                    T.eBounds.append(E.EGenericType(eClassifier=K[new]))
+                    f.eType = None
+                    f.eGenericType = E.EGenericType(eTypeParameter=T)
+            except Exception as e:  # noqa
+                hist.append(['retype', how, new, type(e).__name__])
+                break                                  # an edit the metamodel API refuses: not this property's subject
+            cur = new
+            hist.append(['retype', how, new])
+            if rng.random() < 0.5:
+                for i in range(NK):
+                    inst[i].append(K[i]())
+            if many:
+                used.r.clear()
+            else:
+                used.r = None
+    out.coverage['generic_retype_stores_checked'] = cnt
+
+
+_run3 = run
+
+
+def run(ctx, out):   # noqa: F811
+    _run3(ctx, out)
+    generic_retype_scenarios(ctx, out)
